@@ -378,6 +378,9 @@ func runC05(c *Ctx) {
 	}
 	// the tokeniser under the text: the lexer model against zlexer.Next, token by token
 	lexStream(c, c.Scale(2000, 40000))
+	// the TXT-family RDATA parser and printer, and the text algebra over the translated per-type parsers and printers
+	txtStream(c, c.Scale(1500, 30000))
+	textStream(c, c.Scale(25, 500))
 }
 
 func spellingKind(s string) string {
